@@ -171,7 +171,6 @@ structure Summary where
   processed : Nat := 0
   traced : Nat := 0
   lost : Nat := 0
-  nonlocalPops : Nat := 0
   shared : Nat := 0
   dequePushes : Nat := 0
   tasksWithWork : Nat := 0
@@ -191,7 +190,6 @@ def checkRun (r : Run) (dump : Option Dump) : Array Finding × Summary := Id.run
   for (tid, recs) in r.tasks do
     let mut i := 0
     let mut worked := false
-    let mut lastPopLocal := true
     for rc in recs do
       match rc with
       | .pop x =>
@@ -208,7 +206,6 @@ def checkRun (r : Run) (dump : Option Dump) : Array Finding × Summary := Id.run
       | .pushQ => sm := { sm with dequePushes := sm.dequePushes + 1 }
       | _ => pure ()
       i := i + 1
-    let _ := lastPopLocal
     if worked then sm := { sm with tasksWithWork := sm.tasksWithWork + 1 }
   -- marks are won once, never on a pre-marked object
   for (x, k) in wonBy.toList do
@@ -240,7 +237,6 @@ def checkRun (r : Run) (dump : Option Dump) : Array Finding × Summary := Id.run
     match replayTask h tid recs with
     | .ok () => pure ()
     | .error e => fs := fs.push ("corr:marklog", "the model's step function rejects the log: " ++ e)
-    -- count pops that did not come from the local segment (deque / injector / steal)
   -- against the heap dump
   if let some d := dump then
     if d.roots != r.roots.map (·.1) then
